@@ -76,6 +76,10 @@ def build_harness():
                       os.path.join(HARNESS, "src", "gen_errs.rs")])
     if rc != 0:
         raise Broken("translator:gen_errs", out)
+    tmpl = open(os.path.join(HARNESS, "Cargo.toml.in")).read().replace("@REPO@", REPO)
+    ct = os.path.join(HARNESS, "Cargo.toml")
+    if not os.path.exists(ct) or open(ct).read() != tmpl:
+        open(ct, "w").write(tmpl)
     lock = os.path.join(HARNESS, "Cargo.lock")
     if not os.path.exists(lock):
         shutil.copy(os.path.join(REPO, "Cargo.lock"), lock)
